@@ -58,7 +58,7 @@ fn case_list(ctx: &Ctx) -> Vec<Case> {
         v.push(Case { size: 250_000 + r.below(450_000), class: 16, level: 4 + r.below(7) as u8, zlib: r.bool(), boundary: false });
     }
     // D: random mid sizes, all classes
-    let n = ctx.n(600, 20_000);
+    let n = ctx.n(2500, 40_000);
     for j in 0..n {
         let mut r = ctx.rng("listD", j);
         let size = if r.chance(1, 4) { r.range(65, 400) } else { r.size_biased(if ctx.thorough() { 400_000 } else { 120_000 }) };
